@@ -34,26 +34,26 @@ def okSlice (st sp : Option Int) : Bool :=
 
 /-- "evaluation succeeds with a non-negative value" in every environment
     whose parameters and fields are non-negative — a syntactic sufficient condition -/
-def safe (F : FieldWidths) : WExp → Bool
+def safe (F : FieldWidths) (L : FieldWidths := []) : WExp → Bool
   | .param _ => true
   | .field n => (F.find? (fun p => p.1 == n)).isSome
-  | .lastfield _ => false
+  | .lastfield n => (L.find? (fun p => p.1 == n)).isSome        -- fields of the held code, when one is held
   | .const k => decide (0 ≤ k)
-  | .mk e _ => safe F e
-  | .mkd e => safe F e
-  | .bin op a b => safe F a && safe F b && okBin op b
-  | .ibin op a b => safe F a && safe F b && okBin op b
-  | .shl a k => safe F a && isNonnegConst k
-  | .shr a k => safe F a && isNonnegConst k
+  | .mk e _ => safe F L e
+  | .mkd e => safe F L e
+  | .bin op a b => safe F L a && safe F L b && okBin op b
+  | .ibin op a b => safe F L a && safe F L b && okBin op b
+  | .shl a k => safe F L a && isNonnegConst k
+  | .shr a k => safe F L a && isNonnegConst k
   | .neg _ => false
   | .pos _ => false
   | .abs _ => false
   | .inv _ => false
-  | .rev a => safe F a
-  | .invbits a _ => safe F a
-  | .revbits a _ => safe F a
-  | .slice a _ st sp => safe F a && okSlice st sp
-  | .popcount a => safe F a
+  | .rev a => safe F L a
+  | .invbits a _ => safe F L a
+  | .revbits a _ => safe F L a
+  | .slice a _ st sp => safe F L a && okSlice st sp
+  | .popcount a => safe F L a
   | .bit _ _ => false
 
 /-- the width an expression is guaranteed to have (top constructor only) -/
@@ -115,7 +115,7 @@ def env0 : Env := { params := fun _ => 0, fields := fun _ => none, last := fun _
 /-- decide a comparison of two encoder-side expressions for ALL parameter values: syntactically
     equal safe expressions have equal values; closed expressions are evaluated -/
 def decideCmp (op : CmpOp) (a b : WExp) : Option Bool :=
-  if a == b && safe [] a then some (cmpVal op 0 0)
+  if a == b && safe [] [] a then some (cmpVal op 0 0)
   else if closed a && closed b then
     match eval env0 a, eval env0 b with
     | .ok x, .ok y => some (cmpVal op x.v y.v)
@@ -186,7 +186,7 @@ def c01OK (t : Tables) (w : Wrapper) : Bool :=
     t.params.all (fun prm => t.params.find? (fun q => q.1 == prm.1) == some prm && decide (prm.2.1 ≤ prm.2.2 + 1)) &&   -- field names are distinct
     t.params.all (fun prm =>
       match p.kwargs.find? (fun k => k.1 == prm.1) with
-      | some k => safe [] k.2.2 && (!k.2.1 || staticW [] k.2.2 == some (prm.2.2 + 1 - prm.2.1))
+      | some k => safe [] [] k.2.2 && (!k.2.1 || staticW [] k.2.2 == some (prm.2.2 + 1 - prm.2.1))
       | none => false) &&
     (!t.decodeOverridden ||
      (match symRun (sigmaOf t p) w.treeNone with
@@ -211,15 +211,15 @@ def paths : DTree → List (List (Cond × Bool) × List Eff × Outcome)
   | .ite c t e =>
     (paths t).map (fun p => ((c, true) :: p.1, p.2)) ++ (paths e).map (fun p => ((c, false) :: p.1, p.2))
 
-def condSafe (F : FieldWidths) : Cond → Bool
-  | .cmp _ a b => safe F a && safe F b
+def condSafe (F : FieldWidths) (L : FieldWidths := []) : Cond → Bool
+  | .cmp _ a b => safe F L a && safe F L b
   | .lastEq => true
-  | .not c => condSafe F c
+  | .not c => condSafe F L c
   | .nbitsNe0 _ => false
 
-def treeSafe (F : FieldWidths) : DTree → Bool
+def treeSafe (F : FieldWidths) (L : FieldWidths := []) : DTree → Bool
   | .leaf _ _ => true
-  | .ite c t e => condSafe F c && treeSafe F t && treeSafe F e
+  | .ite c t e => condSafe F L c && treeSafe F L t && treeSafe F L e
 
 /-- user parameters only occur where just their VALUE is used (operands of `IntegerWrapper(…)`, of int/IntegerWrapper
     arithmetic, shift counts), never where a width is read -/
@@ -328,9 +328,9 @@ def c05OK (t : Tables) (w : Wrapper) : Bool :=
     t.params.all (fun prm => t.params.find? (fun q => q.1 == prm.1) == some prm && decide (prm.2.1 ≤ prm.2.2 + 1)) &&
     t.params.all (fun prm =>
       match p.kwargs.find? (fun k => k.1 == prm.1) with
-      | some k => safe [] k.2.2 && valueOnly k.2.2 && paramsCovered F (rhoOf t) k.2.2 && (!k.2.1 || staticW [] k.2.2 == some (prm.2.2 + 1 - prm.2.1))
+      | some k => safe [] [] k.2.2 && valueOnly k.2.2 && paramsCovered F (rhoOf t) k.2.2 && (!k.2.1 || staticW [] k.2.2 == some (prm.2.2 + 1 - prm.2.1))
       | none => false) &&
-    treeSafe F w.treeNone &&
+    treeSafe F [] w.treeNone &&
     (paths w.treeNone).all (fun pth =>
       match pth.2.2 with
       | .ret fields _ =>
@@ -343,5 +343,65 @@ def c05OK (t : Tables) (w : Wrapper) : Bool :=
       | .raise cls => (errOfName cls).isLibrary
       | .retLast => false
       | .retOther => false)
+
+end IRModel.Wrap
+
+/-! ### C07 at wrapper level: with a key held, `decode()` answers a full frame as a decoder without history does -/
+namespace IRModel.Wrap
+open IRModel IRModel.Py IRModel.Proto
+
+/-- no reference to the held code -/
+def noLast : WExp → Bool
+  | .lastfield _ => false
+  | .param _ | .field _ | .const _ => true
+  | .mk e _ | .mkd e | .neg e | .pos e | .abs e | .inv e | .rev e | .invbits e _ | .revbits e _
+  | .slice e _ _ _ | .popcount e | .bit e _ => noLast e
+  | .bin _ a b | .ibin _ a b | .shl a b | .shr a b => noLast a && noLast b
+
+def noLastCond : Cond → Bool
+  | .cmp _ a b => noLast a && noLast b
+  | .lastEq => false
+  | .not c => noLastCond c
+  | .nbitsNe0 a => noLast a
+
+def noLastTree : DTree → Bool
+  | .leaf _ out => (match out with | .retLast => false | _ => true)
+  | .ite c t e => noLastCond c && noLastTree t && noLastTree e
+
+/-- two paths that decide some comparison in opposite ways cannot both be taken on the same decoded fields -/
+def opposite (P Q : List (Cond × Bool)) : Bool :=
+  P.any (fun cb => Q.any (fun cb' => decide (cb.1 = cb'.1) && (cb.2 != cb'.2)))
+
+/-- the leaf reports the decoded fields unchanged -/
+def retIdentity (t : Tables) (fs : List (String × WExp)) : Bool :=
+  t.params.all (fun prm => fs.any (fun f => f.1 == prm.1 && f.2 == .field prm.1)) &&
+  fs.all (fun f => t.params.any (fun prm => prm.1 == f.1 && f.2 == .field prm.1))
+
+/-- the path establishes that the held code and the decoded code agree on field `k` -/
+def sameOnPath (t : Tables) (P : List (Cond × Bool)) (k : String) : Bool :=
+  (P.any (fun cb => (cb.1 == .lastEq && cb.2) || (cb.1 == .not .lastEq && !cb.2)) && t.codeOrder.any (fun p => p.1 == k)) ||
+  P.any (fun cb =>
+    match cb.1 with
+    | .cmp op a b =>
+      ((op == .eq && cb.2) || (op == .ne && !cb.2)) &&
+      ((a == .lastfield k && b == .field k) || (a == .field k && b == .lastfield k))
+    | _ => false)
+
+def outcomeAgree (t : Tables) (Ps Pn : List (Cond × Bool) × List Eff × Outcome) : Bool :=
+  match Ps.2.2, Pn.2.2 with
+  | .raise a, .raise b => decide (errOfName a = errOfName b)
+  | .ret fs _, .ret fn _ => retIdentity t fs && retIdentity t fn
+  | .retLast, .ret fn _ =>
+    retIdentity t fn &&
+    t.encodeParams.all (fun ep => sameOnPath t Ps.1 (Props.C01.viewKey ep.1))
+  | _, _ => false
+
+/-- **C07 at wrapper level**, the decidable obligation -/
+def c07OK (t : Tables) (w : Wrapper) : Bool :=
+  let F := widthsOf t
+  w.decTraced && t.decodeOverridden && t.repeatBursts.isEmpty &&
+  t.params.all (fun prm => t.params.find? (fun q => q.1 == prm.1) == some prm && decide (prm.2.1 ≤ prm.2.2)) &&
+  treeSafe F [] w.treeNone && noLastTree w.treeNone && treeSafe F F w.treeSome &&
+  (paths w.treeSome).all (fun Ps => (paths w.treeNone).all (fun Pn => opposite Ps.1 Pn.1 || outcomeAgree t Ps Pn))
 
 end IRModel.Wrap
